@@ -257,6 +257,38 @@ Definition table_ok (H P : graph) (t : table) : bool :=
                     is_perm l (monos_on H P (filter (fun x => LGraph.mem x hn) (node_ids H))
                                             (filter (fun x => LGraph.mem x pn) (node_ids P)))) t.
 
+(** ---------- recorded VF2 tables, strict form (used by [run_list]) ---------- *)
+Definition same_set2 (a b : list N) : bool := same_set a b && same_set b a.
+Definition map_eqb2 (a b : mapping) : bool := map_eqb a b && map_eqb b a.
+
+Fixpoint lookup_opt (t : table) (hn pn : list N) : option (list mapping) :=
+  match t with
+  | [] => None
+  | (h, p, l) :: r => if same_set2 h hn && same_set2 p pn then Some l else lookup_opt r hn pn
+  end.
+
+(** the oracle of the order-sensitive run: the recorded networkx enumeration of the call,
+    and the verified enumerator for a call that was never recorded *)
+Definition lookup_or (t : table) (H P : graph) (hn pn : list N) : list mapping :=
+  match lookup_opt t hn pn with Some l => l | None => monos_on H P hn pn end.
+
+Fixpoint remove2 (x : mapping) (l : list mapping) : option (list mapping) :=
+  match l with
+  | [] => None
+  | y :: r => if map_eqb2 x y then Some r
+              else match remove2 x r with Some r' => Some (y :: r') | None => None end
+  end.
+Fixpoint is_perm2 (a b : list mapping) : bool :=
+  match a with
+  | [] => match b with [] => true | _ => false end
+  | x :: a' => match remove2 x b with Some b' => is_perm2 a' b' | None => false end
+  end.
+
+Definition table_ok2 (H P : graph) (t : table) : bool :=
+  forallb (fun e => let '(hn, pn, l) := e in
+                    is_perm2 l (monos_on H P (filter (fun x => LGraph.mem x hn) (node_ids H))
+                                             (filter (fun x => LGraph.mem x pn) (node_ids P)))) t.
+
 (** ---------- monitor of the input premise of the theorems ([gwf], lib/C06_Spec.v):
     distinct node ids; every edge joins two different nodes of the graph ---------- *)
 Fixpoint nodupb (l : list N) : bool :=
@@ -285,8 +317,9 @@ Definition run_set (H P : graph) (cfgs : list cfg) : tok :=
       tlist (fun c => L [ tbool (quick_pre_filter H P (c_thr c));
                           tset tmapping (find (monos_on H P) c H P) ]) cfgs ].
 
-(** order-sensitive run: oracle := recorded networkx enumerations *)
+(** order-sensitive run: oracle := recorded networkx enumerations ([lookup_or]); the flag [table_ok2] implies the
+    VF2 premise of the theorems for this oracle (proof/C06_Table.v) *)
 Definition run_list (H P : graph) (t : table) (cfgs : list cfg) : tok :=
-  L [ tbool (wfb H && wfb P); tbool (table_ok H P t); tcomps (comps H); tcomps (comps P);
+  L [ tbool (wfb H && wfb P); tbool (table_ok2 H P t); tcomps (comps H); tcomps (comps P);
       tlist (fun c => L [ tbool (quick_pre_filter H P (c_thr c));
-                          tlist tmapping (find (lookup t) c H P) ]) cfgs ].
+                          tlist tmapping (find (lookup_or t H P) c H P) ]) cfgs ].
